@@ -25,6 +25,8 @@ CLAIMED = {
  "C22": ("exploration", "designs with continuous factors; every continuous draw goes through the scripted PRNG and the script decides which whole-sequence attempt satisfies the ContinuousConstraint; returned values re-derived from the returned rows (same-trial inputs, ContinuousFactorWindow with NaN rules, cumulative sums per sequence); exact attempt count as bounded liveness", "scripted PRNG ('bad luck' fault placement) + recomputation oracle", "6 C22"),
  "C15": ("exploration", "derived-level tables generated as data (total, deliberately overlapping or non-covering on a reachable window, ElseLevel, early start, stride); overlapping => constructor raises, non-covering => every strategy returns [], otherwise every returned sequence carries exactly the level its window selects and '' where the factor does not apply; IterateSATGen under every peer policy, RandomGen under scripted draws, CMSGen", "reference-model oracle (R-DER) over peer/RNG schedules; the design generator carries most of the weight", "6 C15"),
  "C16": ("exploration", "block.trials_per_sample() against the documented arithmetic (reference R-T) and the length of every factor's column in every sequence from IterateSATGen, RandomGen, CMSGen, UniGen and SMGen (virtual-clock world)", "reference-model oracle (R-T) over all strategies; the design generator carries most of the weight", "6 C16"),
+ "C23": ("exploration", "weight-vs-copies metamorphic twin: each weighted level replaced by separately named copies (derived tables rewritten); both designs exhausted with IterateSATGen in one world; equal sets when the weighted factor is crossed, equal multisets when it is in no crossing; no hidden factor exposed", "metamorphic twin oracle; the design generator carries most of the weight", "6 C23"),
+ "C24": ("exploration", "the four documented combinator laws as generator templates, both sides built from fresh objects and exhausted under the run's peer policy: same constructor outcome, same trial count, same solution multiset", "documented-equivalence (metamorphic) oracle", "6 C24"),
 }
 
 NA = {
